@@ -27,7 +27,7 @@ CORPORA = {
                                                       ("retry", (4, 1), "scoped_lock"), ("single", (3,), "lock")},
                                   UnivA={1, 2, 3, 4}, MinLenA=0, MaxLenA=2,
                                   Policies={"RP", "WP"}, NT=2, Keys={"owned", "lent"}),
-                      parts=16, max_runs=1500000),
+                      parts=16, max_runs=500000),
     ),
     # three members in every arrangement: the index arithmetic of rollbacks and of the retry loop
     "size3": dict(
@@ -39,7 +39,7 @@ CORPORA = {
                                   CallsB=HOLDERS_3 | {("single", (3,), "lock"), ("boxed", (3, 1), "lock")},
                                   UnivA={1, 2, 3, 4}, MinLenA=3, MaxLenA=4, Policies={"RP", "WP"}, NT=2,
                                   Keys={"owned", "lent"}),
-                      parts=16, max_runs=1500000),
+                      parts=16, max_runs=500000),
     ),
     # three threads: rings and mixed kinds over three top-level locks
     "conc3": dict(
@@ -53,7 +53,7 @@ CORPORA = {
                                   CallsB={("boxed", (2, 1), "lock"), ("retry", (4, 2), "lock"), ("single", (1,), "lock"),
                                           ("owned", (4,), "read")},
                                   UnivA={1, 2, 4}, MinLenA=2, MaxLenA=3, Policies={"RP", "WP"}, NT=3, Keys={"owned"}),
-                      parts=16, max_runs=1500000),
+                      parts=16, max_runs=500000),
     ),
 }
 
@@ -74,7 +74,7 @@ CORPORA.update({
                                   SeqHolders={("none", 0), ("lock", 1), ("read", 1), ("lock", 17), ("lock", 6), ("read", 6),
                                               ("lock", 3), ("read", 4), ("lock", 14), ("scoped_lock", 23), ("try_lock", 9)},
                                   Policies={"RP", "WP"}),
-                      parts=16, max_runs=1500000),
+                      parts=16, max_runs=500000),
     ),
     # single-thread histories over the key-affecting vocabulary (+ an optional holder thread)
     "seqkey": dict(
@@ -88,7 +88,7 @@ CORPORA.update({
                                   SeqRels={"drop", "unlock", "forget"}, SeqKeys={"owned", "lent"}, SeqBodies={"none", "panic"},
                                   SeqKeyOps={"probe", "getkey", "dropkey", "forgetkey"}, SeqMaxLen=3,
                                   SeqHolders={("none", 0)}, Policies={"RP"}),
-                      parts=16, max_runs=1500000),
+                      parts=16, max_runs=500000),
     ),
     # two-item histories over every key-consuming path of every kind (Mutex, RwLock, boxed, retry, Poisonable),
     # normal and panicking, with a key probe in between
@@ -101,7 +101,7 @@ CORPORA.update({
         thorough=dict(consts=dict(Family="seq", SeqColls={1, 2, 3, 4, 6, 8}, SeqApis=ALL_APIS,
                                   SeqRels={"drop", "unlock"}, SeqKeys={"owned", "lent"}, SeqBodies={"none", "panic"},
                                   SeqKeyOps={"probe"}, SeqMaxLen=2, SeqHolders={("none", 0), ("lock", 13)}, Policies={"RP"}),
-                      parts=16, max_runs=1500000),
+                      parts=16, max_runs=500000),
     ),
     # three-item poison histories: poison, clear (also while the poisoned guard is live), re-poison, observe
     "poisonseq": dict(
@@ -116,7 +116,7 @@ CORPORA.update({
                                   SeqKeyOps=set(), SeqTopOps={("is_poisoned", 8), ("clear_poison", 8), ("is_poisoned", 7),
                                                               ("clear_poison", 7)},
                                   SeqMaxLen=3, SeqHolders={("none", 0)}, Policies={"RP"}),
-                      parts=16, max_runs=1500000),
+                      parts=16, max_runs=500000),
     ),
     # single-thread sequences over every API flavour x release flavour x key style, with a holder
     "seqapi": dict(
@@ -130,7 +130,7 @@ CORPORA.update({
                                   SeqRels={"drop", "unlock"}, SeqKeys={"owned", "lent"}, SeqBodies={"acc"},
                                   SeqKeyOps=set(), SeqMaxLen=2,
                                   SeqHolders={("none", 0), ("lock", 3), ("read", 3)}, Policies={"RP", "WP"}),
-                      parts=16, max_runs=1500000),
+                      parts=16, max_runs=500000),
     ),
     # panics in user code at every critical section, poisonable wrappers everywhere
     "panic": dict(
@@ -145,7 +145,7 @@ CORPORA.update({
                                   SeqKeyOps=set(), SeqTopOps={("is_poisoned", 8), ("clear_poison", 8), ("is_poisoned", 7),
                                                               ("clear_poison", 7), ("is_poisoned", 11), ("clear_poison", 11)},
                                   SeqMaxLen=2, SeqHolders={("none", 0), ("lock", 3)}, Policies={"RP"}),
-                      parts=16, max_runs=1500000),
+                      parts=16, max_runs=500000),
     ),
     # two threads, thread 1's critical section panics; thread 2 waits for the same locks
     "concpanic": dict(
@@ -158,7 +158,7 @@ CORPORA.update({
         thorough=dict(consts=dict(Kinds=ALL_KINDS, ApisA=ALL_APIS, CallsB=HOLDERS_2,
                                   UnivA={1, 2, 4}, MinLenA=0, MaxLenA=3,
                                   Policies={"RP", "WP"}, NT=2, Keys={"owned", "lent"}, ConcBodies={"panic"}),
-                      parts=16, max_runs=1500000),
+                      parts=16, max_runs=500000),
     ),
     # non-acquiring operations ({:?}, is_poisoned, clear_poison) against every held pattern
     "ops": dict(
@@ -184,7 +184,7 @@ CORPORA.update({
                                   SeqMaxLen=1, SeqHolders={("none", 0), ("lock", 3), ("read", 3), ("lock", 6), ("lock", 13), ("read", 4),
                                                            ("lock", 14), ("read", 5), ("lock", 2)},
                                   Policies={"RP", "WP"}),
-                      parts=16, max_runs=1500000),
+                      parts=16, max_runs=500000),
     ),
 })
 
@@ -204,7 +204,7 @@ CORPORA.update({
                                   FltHolders={("none", 0), ("lock", 1), ("lock", 17), ("lock", 2), ("read", 1), ("lock", 6)},
                                   FltMaxAt=14, FltTryProbes=FLT_PROBES_TRY, FltLockProbes=FLT_PROBES_LOCK,
                                   Policies={"RP"}),
-                      parts=16, max_runs=1500000),
+                      parts=16, max_runs=500000),
     ),
 })
 
